@@ -133,7 +133,7 @@ def _ev(e, env, cache):
         return math.floor(a[0])
     # comparisons are LENIENT (hold when true up to rounding): assumptions are then accepted generously and a goal counts as
     # failing only if it fails by more than rounding
-    tol = lambda x, y: 1e-9 * (1 + abs(x) + abs(y))
+    tol = lambda x, y: 1e-12 * (1 + abs(x) + abs(y))
     if kind == z3.Z3_OP_LE:
         return a[0] <= a[1] + tol(a[0], a[1])
     if kind == z3.Z3_OP_GE:
